@@ -56,9 +56,15 @@ func build(kind string) *env {
 		core = zapcore.NewCore(enc(), zapcore.Lock(newSink()), zap.DebugLevel)
 	case "combine":
 		core = zapcore.NewCore(enc(), zap.CombineWriteSyncers(newSink(), newSink()), zap.DebugLevel)
-	case "open":
+	case "combine1": // a single destination must be serialised just like several
+		core = zapcore.NewCore(enc(), zap.CombineWriteSyncers(newSink()), zap.DebugLevel)
+	case "open", "open1":
 		openSinks = openSinks[:0]
-		ws, closeFn, err := zap.Open("torn://a", "torn://b")
+		urls := []string{"torn://a", "torn://b"}
+		if kind == "open1" {
+			urls = urls[:1]
+		}
+		ws, closeFn, err := zap.Open(urls...)
 		if err != nil {
 			panic(mc.ToolErr{Msg: "zap.Open: " + err.Error()})
 		}
@@ -245,10 +251,10 @@ func main() {
 	progs := []string{"I", "B", "S", "C", "W", "II", "IB", "BI", "SW", "CW", "WI"}
 	singles := []string{"I", "B", "W", "C"}
 	var items []string
-	for _, kind := range []string{"lock", "combine", "open", "buffered", "tee", "teebuf"} {
+	for _, kind := range []string{"lock", "combine", "combine1", "open", "open1", "buffered", "tee", "teebuf"} {
 		for i := 0; i < len(progs); i++ {
 			for j := i; j < len(progs); j++ {
-				if !run.Thorough() && len(progs[i])+len(progs[j]) == 4 && (kind == "open" || kind == "teebuf") {
+				if !run.Thorough() && len(progs[i])+len(progs[j]) == 4 && (kind == "open" || kind == "open1" || kind == "combine1" || kind == "teebuf") {
 					continue
 				}
 				items = append(items, fmt.Sprintf("c04|%s|%d|%s;%s", kind, pre, progs[i], progs[j]))
